@@ -450,7 +450,8 @@ fn exec(live: &mut Live, op: &Value, dict: &Dict, ev: &mut Map<String, Value>, v
             }
             ev.insert(
                 "dev".into(),
-                json!({"strict": reopen_dump(&bytes, true, dict), "permissive": reopen_dump(&bytes, false, dict)}),
+                json!({"strict": reopen_dump(&bytes, true, dict), "permissive": reopen_dump(&bytes, false, dict),
+                       "img": if bytes.len() <= 16 << 20 { indep::decode(&bytes, dict, &indep::Options { max_runs: 0, sectors: false }) } else { json!({}) }}),
             );
             ok(json!("unit"))
         }
